@@ -12,6 +12,8 @@ import Pongo.Props.C17
 import Pongo.Gen.SafeSites
 import Pongo.Lemmas.CleanInterp
 import Pongo.Lemmas.ParseAll
+import Pongo.Lemmas.LexPos
+import Pongo.Gen.LexTables
 
 namespace Pongo.C02
 open Pongo
@@ -273,6 +275,63 @@ example : ToksOK (fun _ => True)
    fun _ _ _ _ _ _ _ _ _ => trivial⟩
 
 end interpreter
+
+/-! ### … and from the bytes of the sources
+
+With the lexer theorem `word tokens are source words` (`Lemmas/LexPos.lean`, `TokOK`) the
+token-level premise becomes one about the source *text*, for the lexer tables regenerated from
+`/repo/lexer.go`: a source in which the byte strings `safe`, `filter` and `off` do not occur has no
+such identifier token (sufficient, not necessary: `offer` contains `off`). -/
+
+section bytes
+
+/-- the literal text of a set of sources: what a text token of one of them can be written as (trimmed
+    as its neighbours and the options say), a source read raw by `ssi`, the output of `templatetag` -/
+def TemplateText (srcs : List Bytes) (c : Bytes) : Prop :=
+  (∃ s ∈ srcs, ∃ toks, lex Gen.lexTables s = .ok toks ∧ ∃ t ∈ toks, t.typ = .html ∧
+      ∃ tb lb tl tr a b, c = htmlOut tb lb t.val tl tr a b) ∨
+  c ∈ srcs ∨ (∃ kv ∈ templateTagMapping, c = kv.2)
+
+/-- a source without the three words is an opt-out-free source -/
+theorem word_free_source_is_optout_free (srcs : List Bytes) (src : Bytes) (hin : src ∈ srcs)
+    (hfree : ∀ w ∈ forbidden, ¬ w <:+: src) : SrcOK Gen.lexTables (TemplateText srcs) src := by
+  intro toks hlex
+  have hpos := lex_pos Gen.lexTables (by decide) (by decide) src
+  rw [hlex] at hpos
+  refine ⟨fun t ht hty => ?_, fun t ht hty tb lb tl tr a b => Or.inl ⟨src, hin, toks, hlex, t, ht, hty, tb, lb, tl, tr, a, b, rfl⟩⟩
+  have hpre := (hpos t ht).2.2 (by rw [hty]; rfl)
+  have hinfix : t.val <:+: src := hpre.isInfix.trans (List.drop_suffix _ _).isInfix
+  cases he : forbidden.elem t.val with
+  | false => rfl
+  | true => exact absurd hinfix (hfree _ (by simpa using he))
+
+/-- **Autoescape, from the bytes of the sources to the bytes of the output**: if the byte strings
+    `safe`, `filter` and `off` occur in none of the sources a set can load nor in the template
+    compiled, then whatever context (free of Go functions and of values pre-marked safe) it is
+    executed with, everything written — also before a failure — is a concatenation of literal text of
+    those sources, `escape` output and the engine's own text for values that are not text.  Lexer
+    (tables regenerated from the code), parser and interpreter of the model; every fuel. -/
+theorem autoescape_for_word_free_sources (cfg : SetCfg) (g : Env) (srcs : List Bytes) (src name : Bytes) (isString : Bool)
+    (hloaders : ∀ l ∈ cfg.loaders, ∀ kv ∈ l, kv.2 ∈ srcs) (hroot : src ∈ srcs)
+    (hfree : ∀ s ∈ srcs, ∀ w ∈ forbidden, ¬ w <:+: s)
+    (hg : EnvOK (TemplateText srcs) g) (f1 f2 ti : Nat) (cs : CState)
+    (hc : compileTpl Gen.lexTables cfg f1 {} name isString src = .ok (ti, cs)) (ctx : Env) (hctx : EnvOK (TemplateText srcs) ctx) :
+    ∃ chunks : List Bytes,
+      (stateAfter ((executeTplUnbuffered Gen.lexTables cfg g f2 ti ctx).run { cs := cs })).out = chunks.flatten ∧
+      ∀ c ∈ chunks, ∃ c', c.Sublist c' ∧ nonWs c = nonWs c' ∧
+        (TemplateText srcs c' ∨
+         (∃ x, c' = escapeHtml x ∧ (∀ b ∈ c, b ∉ C17.specials)) ∨
+         (∃ v : Val, v.isString = false ∧ v.isStringer = false ∧ c' = v.toS)) := by
+  have hS : SetupOK Gen.lexTables cfg (TemplateText srcs) :=
+    ⟨fun l hl kv hkv => word_free_source_is_optout_free srcs kv.2 (hloaders l hl kv hkv) (hfree _ (hloaders l hl kv hkv)),
+     fun l hl kv hkv => Or.inr (Or.inl (hloaders l hl kv hkv)),
+     fun kv hkv => Or.inr (Or.inr ⟨kv, hkv, rfl⟩)⟩
+  exact autoescape_from_source_to_output Gen.lexTables cfg g (TemplateText srcs) hS hg f1 f2 name src isString ti cs
+    (word_free_source_is_optout_free srcs src hroot (hfree src hroot)) hc ctx hctx
+
+end bytes
+
+
 
 -- non-vacuity: a template `<b>{{ x }}</b>` with `x` bound to markup in the context
 example :
